@@ -2728,7 +2728,14 @@ class Parameters:
         refs = {}
         if self_.self is not None:
             private = self_.self._param__private
-            params = list(kwargs if arg is Undefined else dict(arg, **kwargs))
+            if arg is not Undefined:
+                # (an iterable of pairs may be one that can only be consumed
+                # once; a malformed argument is left for _update to refuse)
+                try:
+                    arg = dict(arg)
+                except (TypeError, ValueError):
+                    pass
+            params = list(kwargs if arg is Undefined or not isinstance(arg, dict) else dict(arg, **kwargs))
             for pname in params:
                 if pname in refs:
                     continue
